@@ -618,4 +618,22 @@ theorem syncPart_new_isSome (w : World) (h : w.s.new.isSome = true) : (syncPart 
   | all => exact h
   | normal => exact syncF_new_isSome _ _ h
 
+/-! ### errors of the normal path -/
+
+theorem normalOut_err_of_sync (w : World) (h : (syncPart w).err = true) :
+    (normalOut w).res = .err ∧ (normalOut w).errs.contains .sync = true := by
+  rw [normalOut_res, normalOut_errs]
+  simp [h]
+
+theorem normalOut_err_of_extra (w : World) (h1 : needPatch w = true) (h2 : w.fault.extra = true) :
+    (normalOut w).res = .err ∧ (normalOut w).errs.contains .extra = true := by
+  rw [normalOut_res, normalOut_errs]
+  simp [h1, h2]
+
+theorem normalOut_calls (w : World) :
+    (normalOut w).calls = (syncPart w).calls ++ (if needPatch w then [.extra (wantExtra w) (!w.fault.extra)] else []) := rfl
+
+theorem normalOut_fired (w : World) :
+    (normalOut w).fired = ((syncPart w).fired || (needPatch w && w.fault.extra)) := rfl
+
 end RV.Lemmas.DepCtl
